@@ -150,6 +150,12 @@ def _footprint(ctx, S, nbytes, n, what):
         return UNDECIDED, "unmodelled effects %s %s" % (bad, sorted(set(S.unknown))[:3]), rule, None
     cnt = 0
     for a in S.accesses:
+        if not (_is_global(a.base) or a.base[0] == "alloca") and T.contains_op(a.cond, ("poison", "undef")):
+            return REFUTED, "the condition (lane mask) of the access via %s is undefined for this element count: %s" % (
+                a.what, T.show(a.cond, 3, ctx.names)), rule, {
+                    "n": n, "note": "shift by >= width (or similar) while computing the lane mask: which bytes are "
+                                    "touched is unconstrained"}
+    for a in S.accesses:
         if _is_global(a.base) or a.base[0] == "alloca":
             continue
         if a.base is not p:
@@ -209,6 +215,10 @@ def _gs_footprint(ctx, S, n, what):
     lanes = _lane_addrs(ctx, n)
     es = vt.eb // 8
     cnt = 0
+    for a in S.accesses:
+        if not (_is_global(a.base) or a.base[0] == "alloca") and T.contains_op(a.cond, ("poison", "undef")):
+            return REFUTED, "the condition (lane mask) of the access via %s is undefined for this element count: %s" % (
+                a.what, T.show(a.cond, 3, ctx.names)), rule, {"n": n}
     for a in S.accesses:
         if _is_global(a.base) or a.base[0] == "alloca":
             continue
